@@ -417,11 +417,11 @@ Proof.
   intros (HI & Hhb & Hw) (Hfr & Hp & Hl) Hnd. pose proof (iv_li hr c s HI) as HL. unfold handle_close.
   destruct buf as [b|]; [|same_state].
   destruct (from_row_facts hr (db s) _ HL Hfr) as (G & Hk & Hu & Hlive).
-  destruct (update_ok_t hr c HP Hrs s {| f_hdr := flush_hdr hd (clen b); f_data := b |} true true HI Hhb) as (s' & E & A & B & F);
-    cbn [f_hdr flush_hdr h_name h_link h_pax]; rewrite ?Hp, ?Hl; try assumption.
+  destruct (update_ok_t hr c HP Hrs s {| f_hdr := stamp_mtime (flush_hdr hd (clen b)) (clk s); f_data := b |} true true HI Hhb) as (s' & E & A & B & F);
+    cbn [f_hdr stamp_mtime flush_hdr h_name h_link h_pax]; rewrite ?Hp, ?Hl; try assumption.
   - exact I.
   - exists s', OOk. split; [exact E|]. split; [exact A|]. split; [exact B|].
-    cbn [f_hdr flush_hdr h_name h_tf] in F. rewrite Hp in F.
+    cbn [f_hdr stamp_mtime flush_hdr h_name h_tf] in F. rewrite Hp in F.
     pose proof (from_row_tfo hr (db s) _ HL Hfr) as Hcur.
     apply (wfm_set (tf s) (tf s') (h_name (hd_info hd)) TypeReg Hw G); [| |exact F].
     + destruct (eqb_str (h_name (hd_info hd)) [slash]) eqn:En; [left; apply eqb_str_eq; exact En|right].
